@@ -102,11 +102,13 @@ type connObs struct {
 	Queries    []query
 	QueryErr   error
 	DialErr    bool
+	CtxExpired bool      // the resolver dialed with a context that was already done (the dial fails like a real dialer's)
 	Consumed   int       // number of leading items the resolver read completely
 	CleanClose bool      // all items consumed, then the upstream closed (EOF at a message boundary)
 	Silence    bool      // the script reached a silence item and waited for the resolver to hang up
 	FailIdx    int       // index of the item whose write was cut short by the resolver hanging up (-1: none)
 	FailN      int       // bytes of that item that were consumed
+	DialAt     time.Time // when the resolver dialed this connection
 	EndAt      time.Time // when the responder finished (hang-up seen, or clean close done)
 	Aborted    bool      // the lookup returned while the responder was still delaying an item
 	Addr       conn.Addr
@@ -159,7 +161,7 @@ func (u *tcpUpstream) noteQueries(qs []query) {
 }
 
 func (u *tcpUpstream) DialStream(ctx context.Context, addr conn.Addr, payload []byte) (netio.Conn, error) {
-	o := &connObs{FailIdx: -1, Addr: addr}
+	o := &connObs{FailIdx: -1, Addr: addr, DialAt: time.Now()}
 	idx := len(u.obs)
 	u.obs = append(u.obs, o)
 	o.Queries, o.QueryErr = parseTCPQueries(payload)
@@ -172,6 +174,11 @@ func (u *tcpUpstream) DialStream(ctx context.Context, addr conn.Addr, payload []
 	var cs connScript
 	if u.script != nil && idx < len(u.script.Conns) {
 		cs = u.script.Conns[idx]
+	}
+	if err := ctx.Err(); err != nil {
+		o.DialErr, o.CtxExpired = true, true
+		o.EndAt = time.Now()
+		return nil, err
 	}
 	if cs.DialErr {
 		o.DialErr = true
